@@ -179,6 +179,112 @@ def _induction_names(fn):
     return out
 
 
+STREAM_CLASSES = ("nifly::NiStreamReversible", "nifly::NiIStream", "nifly::NiOStream")
+
+
+def _peel_arg(e):
+    while is_node(e):
+        if e["k"] == "Cast":
+            e = e["e"]
+        elif e["k"] == "Unary" and e["op"] == "&":
+            e = e["e"]
+        else:
+            return e
+    return e
+
+
+def local_name(root, env, at=None):
+    """wire-visible name of a local in a length expression: a local that was itself transferred through the stream is named
+    by how many stream operations ago (in the same function, source order) it was last transferred ($-1 = by the operation
+    just before this one), so renaming it, or moving the code into a helper, changes nothing; any other local is anonymous"""
+    idx = getattr(env, "_stream_calls", None)
+    if idx is None:
+        idx, xfers = {}, {}
+        for n in walk(env.fn.get("body") or {}):
+            if n["k"] in ("Call", "OpCall") and n.get("cls") in STREAM_CLASSES:
+                idx[id(n)] = len(idx)
+                for a in n.get("args", []):
+                    a = _peel_arg(a)
+                    if is_node(a) and a["k"] == "Ref" and a.get("rk") == "local":
+                        xfers.setdefault(a["id"], []).append(idx[id(n)])
+        env._stream_calls, env._stream_xfers = idx, xfers
+    cur = idx.get(id(at)) if at is not None else None
+    if cur is not None:
+        prev = [i for i in env._stream_xfers.get(root[1], ()) if i < cur]
+        if prev:
+            return "$-%d" % (cur - max(prev))
+    return "$local"  # any other local: its name is not wire-visible (renaming it, or inlining the helper that owns it, changes nothing)
+
+
+def shape_with_env(e, env, at=None):
+    """render a length expression with proxies/aliases resolved to member paths"""
+    if not is_node(e):
+        return str(e)
+    k = e["k"]
+    if e.get("val") is not None and k != "Ref":
+        return str(e["val"])
+    if k in ("Ref", "Member", "Subscript"):
+        p = env.path(e)
+        if p is not None:
+            if p[0][0] == "$v":
+                return local_name(p[0], env, at) + "".join("." + c if not c.startswith("[") else c for c in p[1:])
+            return render(p)
+        return show(e)
+    if k == "Binary":
+        return "(%s %s %s)" % (shape_with_env(e["l"], env, at), e["op"], shape_with_env(e["r"], env, at))
+    if k == "Cast":
+        return shape_with_env(e["e"], env, at)
+    if k == "Sizeof":
+        return str(e.get("val"))
+    if k == "Call":
+        r = e.get("recv")
+        return "%s.%s(%s)" % (shape_with_env(r, env, at) if is_node(r) else "", e.get("short"),
+                              ",".join(shape_with_env(a, env, at) for a in e.get("args", [])))
+    return show(e)
+
+
+
+
+def _guard_param(node, env):
+    """index of the parameter a guard is a plain test of (`flag`, `!flag`, `flag == 0`), else None"""
+    if isinstance(node, tuple):
+        return None
+    e = node
+    while is_node(e) and (e["k"] == "Cast" or (e["k"] == "Unary" and e["op"] == "!")):
+        e = e["e"]
+    if is_node(e) and e["k"] == "Ref" and e.get("rk") == "param" and e.get("id") in env.param_index:
+        return env.param_index[e["id"]]
+    return None
+
+
+def _canon_guards(g, env, at):
+    """guards that depend on locals are re-rendered with the locals named like in length expressions (a transferred local by
+    its distance in stream operations), so an inlined or extracted helper with other local names gives the same gate; a
+    guard that is a plain test of a parameter carries the parameter's index, so that the caller can replace it by the
+    argument it passes (`syncOptional(hasBaseTex, baseTex)` is gated by `hasBaseTex`, not by the helper's `flag`)."""
+    out = []
+    for t in g:
+        key, pol, local = t[0], t[1], t[2]
+        node = flow.KEYNODE.get(key)
+        pi = _guard_param(node, env) if node is not None else None
+        if local and node is not None:
+            try:
+                if isinstance(node, tuple) and len(node) == 3 and node[0] == "cmp" and is_node(node[1]):
+                    k2, p2 = flow.norm_cmp(node[1], lambda x: shape_with_env(x, env, at))
+                    if p2 == node[2] and k2 != key:
+                        flow.KEYNODE.setdefault(k2, node)
+                        key = k2
+                elif is_node(node) and node["k"] != "VerOr":
+                    k2 = shape_with_env(node, env, at)
+                    if k2 != key:
+                        flow.KEYNODE.setdefault(k2, node)
+                        key = k2
+            except Exception:
+                pass
+        out.append((key, pol, local) + ((("p", pi),) if pi is not None else ()))
+    return tuple(sorted(set(out), key=lambda t: (t[0], str(t[1:]))))
+
+
 def _local_guard(f, env):
     """does guard fact f depend on a local that is not an alias of a member path?"""
     for d in f[3]:
@@ -350,7 +456,8 @@ class Summarizer:
                         lambdas[v["id"]] = i["fid"]
         for n, st in col.at:
             lkeys = col.loop_keys_at.get(id(n), ())
-            g = tuple(sorted((f[1], f[2], _local_guard(f, env)) for f in (st or ()) if f[0] == "G" and f[1] not in lkeys))
+            g = flow.normalize_guards((f[1], f[2], _local_guard(f, env)) for f in (st or ()) if f[0] == "G" and f[1] not in lkeys)
+            g = _canon_guards(g, env, n)
             ms = st is not None and ("D", "mode-split") in st
             lp = col.loops_at.get(id(n), ())
             site = ((fn["id"], n.get("loc", "")),)
@@ -399,6 +506,8 @@ class Summarizer:
                     elif is_node(a) and a["k"] == "Ref" and a.get("id") in pconst:
                         cc[ai] = pconst[a["id"]]
                 for ev in self.events(t, depth + 1, cc):
+                    if any(len(x) > 3 for x in ev.guards):
+                        ev = Event(ev.path, ev.kind, ev.info, self._subst_guards(ev.guards, args, env, n), ev.chain, ev.loops)
                     if cenv_is_lambda and ev.path is not None and ev.path[0][0] in ("this", "$v"):
                         # lambda bodies see the enclosing frame directly ([&] / [this] captures)
                         np = self._lambda_path(ev.path, env)
@@ -411,6 +520,27 @@ class Summarizer:
                         info = dict(info, modesplit=fn["name"])
                     out.append(Event(np, ev.kind, info, g + ev.guards, site + ev.chain, lp + ev.loops))
         return out
+
+    def _subst_guards(self, guards, args, env, at):
+        """callee guards that test a parameter become guards on the argument the caller passes"""
+        out = []
+        for t in guards:
+            if len(t) > 3 and t[3][0] == "p" and t[3][1] < len(args) and is_node(args[t[3][1]]):
+                a = args[t[3][1]]
+                while is_node(a) and a["k"] == "Cast":
+                    a = a["e"]
+                pol = t[1]
+                if is_node(a) and a.get("val") is not None and a["k"] != "Ref":
+                    continue  # a constant argument: the guard is decided (the dead alternative was pruned by the const binding)
+                key = show(a)
+                flow.KEYNODE.setdefault(key, a)
+                fake = ("G", key, pol, flow.deps_of(a))
+                nt = (key, pol, _local_guard(fake, env))
+                pi = _guard_param(a, env)
+                out.append(nt + ((("p", pi),) if pi is not None else ()))
+            else:
+                out.append(t)
+        return tuple(out)
 
     def _lambda_path(self, p, env):
         root = p[0]
